@@ -51,8 +51,18 @@ fn window(seed: u64, off: u64) -> [u8; WIN] {
     w
 }
 
+thread_local! {
+    pub static MATERIALISE: std::cell::Cell<bool> = const { std::cell::Cell::new(false) };
+}
+
 impl SimData {
     pub fn ent(seed: u64, off: u64, len: u64) -> SimData {
+        // Behind real hyper (engine F) entity data is materialised: hyper's queue of buffers asks
+        // every buffer for *all* its slices at once (`chunks_vectored`), which a virtual window
+        // cannot offer. Contiguous literal bytes are the data type applications use there.
+        if MATERIALISE.with(|m| m.get()) && len <= (1 << 20) {
+            return SimData::Lit { data: (0..len).map(|i| ebyte(seed, off.wrapping_add(i))).collect(), pos: 0 };
+        }
         SimData::Ent {
             seed,
             off,
